@@ -66,4 +66,18 @@ typedef uint64_t elem_t;      /* opaque element token for templates that only mo
 
 #endif
 
+/* std::sort over a whole vector.  Bounded runs execute an insertion sort; contract runs ASSUME "sorted" only (the
+   permutation property of std::sort is part of the trusted base there). */
+#ifdef SHIM_IMPL
+#define VEC_SHIMS_SORT(V, T)                                                                                     \
+	static inline void V##_sort_desc(V *v) { for (size_t a_ = 1; a_ < v->size; a_++) { T x_ = v->data[a_]; size_t b_ = a_; while (b_ > 0 && v->data[b_ - 1] < x_) { v->data[b_] = v->data[b_ - 1]; b_--; } v->data[b_] = x_; } } \
+	static inline void V##_sort_asc(V *v) { for (size_t a_ = 1; a_ < v->size; a_++) { T x_ = v->data[a_]; size_t b_ = a_; while (b_ > 0 && v->data[b_ - 1] > x_) { v->data[b_] = v->data[b_ - 1]; b_--; } v->data[b_] = x_; } }
+#else
+#define VEC_SHIMS_SORT(V, T)                                                                                     \
+	void V##_sort_desc(V *v) __CPROVER_requires(v->size <= CAP) __CPROVER_assigns(__CPROVER_object_whole(v->data))  \
+		__CPROVER_ensures(__CPROVER_forall { size_t i_; __CPROVER_forall { size_t j_; (i_ < j_ && j_ < v->size) ==> v->data[i_] >= v->data[j_] } }); \
+	void V##_sort_asc(V *v) __CPROVER_requires(v->size <= CAP) __CPROVER_assigns(__CPROVER_object_whole(v->data))   \
+		__CPROVER_ensures(__CPROVER_forall { size_t i_; __CPROVER_forall { size_t j_; (i_ < j_ && j_ < v->size) ==> v->data[i_] <= v->data[j_] } });
+#endif
+
 #endif
